@@ -83,7 +83,7 @@ func runSelfTest(prop, repo, verif string) map[string]any {
 	}
 	sort.Strings(names)
 	results := make([]mutantResult, len(names))
-	sem := make(chan struct{}, 4)
+	sem := make(chan struct{}, 8)
 	var wg sync.WaitGroup
 	for i, n := range names {
 		wg.Add(1)
